@@ -180,6 +180,18 @@ CHECKS['C20'] = {
     'technique': 'interval + monotonicity abstract interpretation of closed forms, operator-tree sibling comparison, term-shape matching',
 }
 
+CHECKS['C13'] = {
+    'category': 'other',
+    'text': 'Dependency/wiring clauses decided on MIR: the lag reaches acovf/acf only through abs() (a proof that both are even); acovf : X^2, acf : 1; '
+            'acf is the lag-k over the lag-0 form of the same centred products (acf(.,0) = 1 structurally); differencing is out[i] = v[i+1] - v[i]; '
+            'AR::fit sets intercept = mean(data) and coeffs = invert_matrix(toeplitz(r[..p])).r[1..=p] over acf of the centred series, reversed exactly '
+            'once; forecasts use the raw data only as (value - intercept) and add the intercept back (necessary and sufficient for shift equivariance). '
+            '|acf| <= 1 and convergence of forecasts are numerical and not decided.',
+    'design_ref': 'DESIGN.md 4.13, 3 (E-WIRE dependency signatures, E-SYM, orientation)',
+    'note': 'The reversal-parity device counts reverse() calls on the coefficient field between fit and the forecast step.',
+    'technique': 'dependency analysis (uses only through abs) + closed-form extraction with shift-weight rule + term-shape matching of the Yule-Walker pipeline',
+}
+
 NOT_APPLICABLE = {
     'C09': 'accuracy of the Lanczos/asymptotic/Abramowitz-Stegun approximations over a continuum of arguments is a numerical '
            'quantity; no structural clause is a necessary condition without freezing coefficient tables (a brittle proxy); see DESIGN.md 4.9',
